@@ -18,7 +18,8 @@ GENERATORS = {"probe": gens.gen_probe, "c04_quick": gens.gen_c04("quick"), "c04_
               "c02_quick": gens.gen_c02("quick"), "c02_thorough": gens.gen_c02("thorough"),
               "c06_quick": gens.gen_c06("quick"), "c06_thorough": gens.gen_c06("thorough"),
               "c07_quick": gens.gen_c07("quick"), "c07_thorough": gens.gen_c07("thorough"),
-              "c11_quick": gens.gen_c11("quick"), "c11_thorough": gens.gen_c11("thorough")}
+              "c11_quick": gens.gen_c11("quick"), "c11_thorough": gens.gen_c11("thorough"),
+              "c14_quick": gens.gen_c14("quick"), "c14_thorough": gens.gen_c14("thorough")}
 
 # interim reasons while the framework is being built (kept current with every commit)
 NOT_YET = {}
@@ -27,7 +28,7 @@ NOT_YET = {}
 PROPS = {
     "PROBE": {"level": "model_checking", "claim": "", "note": "", "not_applicable": "internal cost probe",
               "tiers": {"quick": {"modules": ["g_probe"], "generators": ["probe"], "timeout_s": 300, "mem_gb": 12},
-                        "thorough": {"modules": ["p_probe"], "timeout_s": 100, "mem_gb": 12}}},
+                        "thorough": {"modules": ["p_probe"], "timeout_s": 300, "mem_gb": 12}}},
     "C04": {
         "level": "model_checking",
         "claim": "For every enumerated frame shape of every v3.1/v3.1.1/v5.0 packet type (concrete lengths, presence bits, property-id sequences and "
@@ -187,14 +188,16 @@ PROPS = {
     },
     "C03": {
         "level": "model_checking",
-        "claim": "Every byte string of length 0..3 through the blocking decoders and Header::decode of both families, and every 6-byte header prefix through Header::decode, with all of "
+        "claim": "Every byte string of length 0..2 through the blocking decoders and Header::decode of both families, and every 6-byte header prefix through Header::decode, with all of "
                  "Kani's checks (arithmetic overflow, out-of-bounds, invalid pointer, unwrap/expect/unreachable!/debug_assert reachability, unwinding assertions = termination) as obligations. "
                  "Longer inputs are covered per shape: the same checks are obligations in every C04/C06/C07/C12/C20 scenario and in the C05 steps (poll buffer discipline).",
         "note": "sync twin; the poll decoder's MaybeUninit buffer is covered structurally by the C05 invariant (every index below idx was written by the reader); -Z uninit-checks ICEs on this toolchain",
         "functions": ["Packet::decode (v3, v5)", "Header::decode (v3, v5)", "decode_raw_header", "decode_var_int"],
-        "bounds": {"all": "arbitrary strings up to 3 bytes (4 bytes make the first inner length field symbolic, i.e. a symbolic-size allocation: not decidable here); headers of 6 bytes"},
-        "outside": "arbitrary strings of 4+ bytes other than the enumerated shapes; allocation failure (Kani models alloc as infallible); the real async front-end on pending readers",
-        "tiers": {"quick": {"modules": ["p_c03"], "timeout_s": 900, "mem_gb": 12}, "thorough": {"modules": ["p_c03"], "timeout_s": 1800, "mem_gb": 16}},
+        "bounds": {"all": "arbitrary strings up to 2 bytes; headers of 6 bytes. From 3 bytes on the reader position after the remaining-length field is a merged (symbolic) value for symbolic execution "
+                          "and every later length with it (symbolic-size allocations and loops): no verdict within 15 min / 12 GB even per packet type with concrete flags -- measured, see DESIGN.md 7"},
+        "outside": "arbitrary strings of 3+ bytes other than the enumerated shapes; allocation failure (Kani models alloc as infallible); the real async front-end on pending readers",
+        "tiers": {"quick": {"modules": ["p_c03"], "timeout_s": 1500, "mem_gb": 12},
+                  "thorough": {"modules": ["p_c03"], "timeout_s": 1800, "mem_gb": 16}},
     },
     "C09": {
         "level": "model_checking",
@@ -209,16 +212,16 @@ PROPS = {
     },
     "C14": {
         "level": "model_checking",
-        "claim": "Streaming encoders into a sink that fails (error kind / zero-length write) after `limit` bytes, for every limit: the error kind is reported, only a prefix of the correct encoding was "
+        "claim": "A read error injected at every byte position of valid encodings (10 shapes of both families) makes the async decoder return an I/O error of that kind. Streaming encoders into a sink that fails (error kind / zero-length write) after `limit` bytes, for every limit: the error kind is reported, only a prefix of the correct encoding was "
                  "accepted (v3 PUBLISH, v3 CONNECT, v5 PUBACK, v5 PUBLISH bodies); encode_async under sink faults (in C09's module); the poll decoder under a transport error / end of stream at every "
                  "position (C05 step scripts); conversions Error -> std::io::Error preserve the I/O kind and map protocol errors to InvalidData; is_eof <=> UnexpectedEof.",
-        "note": "From<io::Error> for Error is stubbed to keep the kind and drop the message (core::fmt is out of reach); decode_async under read faults is not encoded separately: on the twin a read "
-                "fault is a `?` on read_exact, the same path as end of input, which C07 and the class queries exercise",
+        "note": "From<io::Error> for Error is stubbed to keep the kind and drop the message (core::fmt is out of reach); the async decoder under read faults runs on the sync twin with a reader "
+                "that fails at `limit` (natively: tokio AsyncRead delivering one byte per poll)",
         "functions": ["Encodable::encode (4 bodies)", "Packet::encode_async", "GenericPollPacket::poll error paths", "From<Error> for io::Error", "Error::is_eof", "ErrorV5::is_eof"],
         "bounds": {"all": "every fault position of encodings up to 19 bytes; 6 error kinds for conversions"},
         "outside": "the three manual map_err(|e| IoError(e.kind(), e.to_string())) sites of the v5 async decoder (to_string is core::fmt); Error::from(io::Error) itself",
-        "tiers": {"quick": {"modules": ["p_c14", "p_c09", "p_c05"], "select": r"^c14_|c09_v3_publish_async|c05_steps_(all_rem2|all_rem2_hl3|empty_hl3)$", "timeout_s": 900, "mem_gb": 12},
-                  "thorough": {"modules": ["p_c14", "p_c09", "p_c05"], "select": r"^c14_|c09_v3_publish_async|c05_steps_", "timeout_s": 1800, "mem_gb": 16}},
+        "tiers": {"quick": {"modules": ["p_c14", "p_c09", "p_c05", "g_c14"], "generators": ["c14_quick"], "select": r"^c14_|__rdfault$|c09_v3_publish_(fault|zero)|c05_steps_(all_rem2|all_rem2_hl3|empty_hl3)$", "timeout_s": 900, "mem_gb": 12},
+                  "thorough": {"modules": ["p_c14", "p_c09", "p_c05", "g_c14"], "generators": ["c14_thorough"], "select": r"^c14_|__rdfault$|c09_v3_publish_(fault|zero)|c05_steps_", "timeout_s": 1800, "mem_gb": 16}},
     },
     "C11": {
         "level": "model_checking",
@@ -230,7 +233,7 @@ PROPS = {
         "functions": ["every body decode_async (twin)", "every Encodable::{encode, encode_len}"],
         "bounds": {"quick": "every second canonical shape + all non-canonical shapes of the C04 catalogue", "thorough": "all"},
         "outside": "non-minimal property-length / remaining-length varints (lenient framing of the blocking decoder); as C04",
-        "tiers": {"quick": {"modules": ["g_c11"], "generators": ["c11_quick"], "timeout_s": 600, "mem_gb": 8, "jobs": 14},
+        "tiers": {"quick": {"modules": ["g_c11"], "generators": ["c11_quick"], "timeout_s": 300, "mem_gb": 8, "jobs": 8},
                   "thorough": {"modules": ["g_c11"], "generators": ["c11_thorough"], "timeout_s": 1200, "mem_gb": 10, "jobs": 12}},
     },
     "C08": {
@@ -242,7 +245,7 @@ PROPS = {
         "functions": ["GenericPollPacket::poll", "Packet::decode_async", "Packet::decode", "GenericPollPacketState::default"],
         "bounds": {"all": "C05 streams (bodies up to 4 bytes, headers up to 6 bytes) and the C06 shape list; sequences by induction, not by enumeration"},
         "outside": "real packets with 2-4 byte remaining-length fields (bodies >= 128 bytes) through the blocking/async decoders; the poll side covers wide headers with the generic header only",
-        "tiers": {"quick": {"modules": ["p_c05", "g_c06"], "generators": ["c06_quick"], "select": r"^c08_|^c05_steps_(all_rem2|all_rem2_hl3|all_rem2_hl5|empty_hl2|empty_hl3|empty_hl5)$|_(publish_q1_t1_p1|connack|suback_2|pingreq|puback|connect_v311_f02_c1|disconnect_empty|auth_empty|subscribe_1|puback_short|publish_q0_t1_p1_x03l1)__agree$",
+        "tiers": {"quick": {"modules": ["p_c05", "g_c06"], "generators": ["c06_quick"], "select": r"^c08_|^c05_steps_(all_rem2|all_rem2_hl3|all_rem2_hl5|empty_hl2|empty_hl3|empty_hl5)$|_(publish_q1_t1_p1|connack|suback_2|pingreq|puback|connect_v311_f02_c1|disconnect_empty|auth_empty|subscribe_1|puback_short|publish_q0_t1_p1_x03l1|unsubscribe_1_nonmin|unsubscribe_2_x26l1_1_nonmin)__agree$",
                             "timeout_s": 900, "mem_gb": 10, "jobs": 14},
                   "thorough": {"modules": ["p_c05", "g_c06"], "generators": ["c06_thorough"], "select": r"^c08_|^c05_steps_|__agree$", "timeout_s": 1800, "mem_gb": 12, "jobs": 10}},
     },
@@ -270,10 +273,10 @@ PROPS = {
         "functions": ["var_int_len", "total_len", "header_len", "remaining_len", "write_var_int (via SubscribeProperties::encode)",
                       "decode_var_int (via decode_raw_header, twin)", "VarByteInt::try_from"],
         "bounds": {"all": "helpers: whole usize domain; writer: all v < 2^28; reader: every byte string of length 0..=6 (all continuation patterns of five length bytes)"},
-        "outside": "nothing for the helpers/writer/reader; the poll decoder's header state machine is covered by the poll-family harnesses",
+        "outside": "nothing for the helpers/writer/reader; the poll decoder's header state machine on the concrete header spellings of the selected C05 step streams (1-4 length bytes, over-long fifth byte)",
         "tiers": {
-            "quick": {"modules": ["p_c15"], "timeout_s": 300, "mem_gb": 8},
-            "thorough": {"modules": ["p_c15"], "timeout_s": 900, "mem_gb": 8},
+            "quick": {"modules": ["p_c15", "p_c05"], "select": r"^c15_|^c05_steps_(overlong_varint|all_rem2_hl5|rem130_hl3_prefix)$", "timeout_s": 600, "mem_gb": 10},
+            "thorough": {"modules": ["p_c15", "p_c05"], "select": r"^c15_|^c05_steps_", "timeout_s": 1800, "mem_gb": 16},
         },
     },
     "C16": {
@@ -286,8 +289,8 @@ PROPS = {
                    "thorough": "all strings of 0..=6 scalars; '$share/' + 1..=7; '$share/g/' + 3..=5"},
         "outside": "strings of more than 6 scalars (13 after a concrete '$share/' prefix)",
         "tiers": {
-            "quick": {"modules": ["p_c16"], "select": r"plain[0-4]$|share[1-5]$|near_|length_limit|share_g_3", "timeout_s": 400, "mem_gb": 8},
-            "thorough": {"modules": ["p_c16"], "timeout_s": 3000, "mem_gb": 16, "jobs": 6},
+            "quick": {"modules": ["p_c16", "g_c06"], "generators": ["c06_quick"], "select": r"plain[0-4]$|share[1-5]$|near_|length_limit|share_g_3|_(subscribe|unsubscribe)_(0|1_0)__agree$", "timeout_s": 400, "mem_gb": 8},
+            "thorough": {"modules": ["p_c16", "g_c06"], "generators": ["c06_quick"], "select": r"^c16_|_(subscribe|unsubscribe)_(0|1_0)__agree$", "timeout_s": 3000, "mem_gb": 16, "jobs": 6},
         },
     },
 }
